@@ -169,7 +169,7 @@ class Facts:
             for op, L, R, _, _ in cond_atoms(cond, kind):
                 while L[0] == "=":
                     L = L[1]
-                if any(t[0] == "call" for t in subterms(L)) or any(t[0] == "call" for t in subterms(R)):
+                if any(t[0] == "call" and t[1] != "strlen" for t in subterms(L)) or any(t[0] == "call" and t[1] != "strlen" for t in subterms(R)):
                     continue
                 add += self.mk(op, L, R)
             if not add:
